@@ -64,10 +64,10 @@ func init() {
 		Pkg: "verif/harness/c02",
 		Runs: []RunDef{c02("H_for_nested"), c02("H_while_nested"), c02("H_foreach"), c02("H_switch_in_for"), c02("H_func_defaults"), c02("H_static_counter"),
 			c02("H_locals_isolated"), c02("H_if_chain"), c02("H_match"), c02("H_counter_escapes"), c02("H_return_from_loop"), c02("H_repeated_statements"),
-			c02("H_loop_body_exits"), {Fn: "H_static_forms", Fuel: 30_000_000, Tier: "quick", Reach: []string{"end"}}, c02("H_static_recursion")},
+			c02("H_loop_body_exits"), {Fn: "H_static_forms", Fuel: 30_000_000, Tier: "quick", Reach: []string{"end"}}, c02("H_static_recursion"), c02("H_switch_labels")},
 		Rule:        rule + "; each template is parsed by the real parser on every path and run by the real evaluators with symbolic loop limits/trigger indexes in [-1,3] (unbounded ints where no loop depends on them); exit statement kind and level are enumerated by solver-driven case split; the oracle is the same algorithm in Go executed in the same path; H_loop_body_exits puts break/continue under an if in the middle of the body of every loop kind; H_static_forms: 6 update forms x 3 ways of leaving the function x 3 placements of the static declaration; H_static_recursion: frames of a recursive function share the static",
 		Assumptions: []string{"switch fall-through into the next case and a bare 'continue' directly inside switch are not asserted (docs are silent / PHP-specific)"},
-		Outside:     []string{"programs outside the 15 templates", "loop counts > 3, nesting depth > 2", "generators, goto, strings in conditions"},
+		Outside:     []string{"programs outside the 16 templates (H_switch_labels: three cases with labels drawn from {1,2,3} with repetition, default clause in every position, literal and expression labels, symbolic subject)", "loop counts > 3, nesting depth > 2", "generators, goto, strings in conditions"},
 	})
 
 	reg(Check{
@@ -82,7 +82,7 @@ func init() {
 			{Fn: "H_triples", Tier: "thorough", Reach: []string{"end"}},
 		},
 		Rule:        rule + "; all ordered pairs (quick) and triples (thorough) of the 23 binary operators of the table plus 38 unary/ternary/??/assignment/concatenation forms and 4 shapes x 23 operators of sign-fused number literals (`$a -3 * $c`, `$a-3*$c`, `-2 ** $c`, `$a B -2 ** $c`) and 5 cast shapes x 2 casts x 23 operators (`(T)$a B $c`, `$a B (T)$c`, `-(T)$a B $c`, `(T)-$a B $c`, `!(T)$a B $c`) and runs of two or three prefix operators out of {-, !, ~} alone, before and after every binary operator; each is printed with minimal and with full parentheses, both parsed by the real parser and evaluated on symbolic 64-bit ints: two different parse trees are separated by a solver-chosen operand assignment",
-		Assumptions: []string{"operands are ints (concrete pool {0,1,2,3,-1} where ** or . is involved: math.Pow / number formatting are not encoded)", "chains inside the non-associative comparison/equality classes are not part of the table"},
+		Assumptions: []string{"operands are ints (concrete pool {0,1,2,3,-1} where ** or . is involved: math.Pow / number formatting are not encoded)", "chains inside the non-associative comparison/equality classes are not part of the table", "chains of ?: group to the right (the behaviour of the pinned tree; the table gives only the level of ?:)"},
 		Outside:     []string{"the conversion performed by the cast functions of package std (casts are checked for their place in the parse tree with stand-in bool/int conversion functions registered under the names the cast syntax resolves)", "depth 4-5 trees", "float/bool/string operands"},
 	})
 
@@ -140,7 +140,7 @@ func init() {
 			{Fn: "H_types_ns", Tier: "quick", Reach: []string{"end"}},
 			{Fn: "H_abstract", Tier: "quick", Reach: []string{"end"}},
 		},
-		Rule:        rule + "; (7 member kinds x 3 modifiers) x (6 access sites) and (6 declared types x 9 runtime value kinds) x (15 boundaries: typed property, static typed property through Class::/self::/static::, parameter and return value of functions, instance methods, static methods, constructors, closures and arrow functions) enumerated completely; H_types_ns: a type name declared in global code or in a namespace against objects of a same-named class of the other namespace (and of its subclass / of an implementor of a same-named interface) at the three basic boundaries by solver-driven case split over one fixture family; the written payload is a symbolic int, so a denied write is shown to leave the member unchanged for every value; every attempt of H_abstract (instantiating an abstract / incomplete class) is made three times in one run, so a verdict cached after the first attempt is observed. The structural dimension is exhaustive enumeration executed through the engine; the universal (solver) part is payload independence",
+		Rule:        rule + "; (7 member kinds x 3 modifiers) x (8 access sites incl. code of the declaring class acting on a subclass instance held in a variable, and the same code inherited by a subclass object acting on a base instance) and (6 declared types x 9 runtime value kinds) x (15 boundaries: typed property, static typed property through Class::/self::/static::, parameter and return value of functions, instance methods, static methods, constructors, closures and arrow functions) enumerated completely; H_types_ns: a type name declared in global code or in a namespace against objects of a same-named class of the other namespace (and of its subclass / of an implementor of a same-named interface) at the three basic boundaries by solver-driven case split over one fixture family; the written payload is a symbolic int, so a denied write is shown to leave the member unchanged for every value; every attempt of H_abstract (instantiating an abstract / incomplete class) is made three times in one run, so a verdict cached after the first attempt is observed. The structural dimension is exhaustive enumeration executed through the engine; the universal (solver) part is payload independence",
 		Assumptions: []string{"strict typing: a declared scalar type accepts exactly values of that type (no coercion)"},
 		Outside:     []string{"hierarchy-shape variation, enum/readonly, traits", "static:: / self:: visibility paths, __get/__set", "types written before the class they name is declared; promoted constructor properties"},
 	})
